@@ -22,6 +22,14 @@ CLAIMED = {
          "4 C14", "-"),
  "C16": ("child-context size rule proved against the 256 KB constant read from the source; summary re-traversal sends no records",
          "4 C16", "determinism of the re-run body (U)"),
+ "C05": ("_collect_checkpoint_batch verified with three loop invariants over a ghost hand-over order (FIFO, contiguity across batch/overflow/main, limits, overflow <= 1, progress) for every arrival pattern, size and configuration; consumer loop: exactly-once hand-over to the API, token chain, release of every synchronous element on success and on failure",
+         "4 C05", "'eventually released' as liveness (termination of the service call, fairness) - replaced by the safety obligations release_all / progress"),
+ "C06": ("consumer failure arm wakes every queued synchronous element with the wrapped cause, sets the failed flag and stops calling the API (loop invariants for both drains); create_checkpoint fails fast once the flag is set; every handler lets BackgroundThreadError pass without further effect; wrapper classification of checkpoint failures",
+         "4 C06", "'terminates promptly' (timing); the check-then-put window of create_checkpoint and the executor callbacks are decided separately (see evidence)"),
+ "C10": ("_mark_orphans verified against a closure contract with a BFS loop invariant; create_checkpoint maintains the closure invariant 'children of marked or completed contexts are marked' and rejects every update whose operation or parent is under a completed context; handlers stop at the rejected update before any user function",
+         "4 C10", "the window between releasing _parent_done_lock and the queue put (schedule; G)"),
+ "C18": ("the wrapper body executed symbolically for every handler outcome class: status/shape table, raises-only-for-retry, PENDING iff suspension, checkpoint thread stopped before the pool joins; LambdaClient wraps every API/parsing failure into the classified error",
+         "4 C18", "CheckpointError.from_exception's HTTP-status table is decided in C06.exec.is_retriable when built"),
  "C20": ("every wire codec pair executed symbolically on fully symbolic well-typed objects; N(from(to(x))) == N(x) per field, dict and JSON routes, plus presence of every option in the wire form",
          "4 C20", "float rounding of millisecond conversion (A)"),
 }
